@@ -20,6 +20,14 @@ RegFileTrace.tla, harness/c17_regfile.py (register files); harness/c17_ext.py (p
      to the real queue and rdy/val/transfer/message/count are compared.
   3. code -> spec: long bursty random offer histories with serial-number payloads on every class,
      also at capacities beyond the model-checked ones, validated by FifoTrace.
+  3b. CL queues (capacities 1..3, histories also at 5) under callers that sample enq.rdy() / deq.rdy() in one
+     update_once block and call enq / deq in a LATER block (producer split, consumer split, both): M(q.enq)
+     orders only blocks that call the method itself, so the sampling block is ordered by M(q.enq.rdy) alone.
+     EVERY linear extension of pymtl3's own constraints over the caller blocks and the queue's own blocks is
+     forced as the schedule; each is walked over the Fifo.tla graph and drives a random history validated by
+     FifoTrace (legal driver: the method is called only if the rdy sampled THAT cycle was true).  The same
+     split callers drive RecvCL2SendRTL.recv, SendQueueAdapter.enq and RecvQueueAdapter.deq under eight
+     scheduler variants (DynamicSchedulePass, SimpleSchedulePass under several random seeds).
   4. canaries: faulty software queues (lost message, swapped messages, wrong ready) must be
      rejected by the walk and by FifoTrace; corrupted copies of real traces must be rejected.
   5. classes built as a chain of queues (enrdy BypassQueue2RTL = two BypassQueue1RTL in series):
@@ -74,7 +82,14 @@ c17_duts.py (legal en/rdy, val/rdy and CL method drivers; the intra-cycle order 
 queue). Reset is only exercised on classes whose state has a reset term; occupancy of classes
 without a count port is read from their full bits / deque (white box). valrdy_queues.py cannot be
 imported on the unchanged tree (missing InValRdyIfc/OutValRdyIfc); the stream val/rdy interfaces are
-lent under those names in memory.  Adapters: Adapter.tla states the kind of each adapter as its code and
+lent under those names in memory.  Split callers: NormalQueueCL orders its flag refresh before every rdy()
+caller, so every legal schedule must give Fifo.tla(normal).  PipeQueueCL (BypassQueueCL) orders only the deq < enq
+(enq < deq) METHODS: a block that only samples enq.rdy() (deq.rdy()) is unordered against the other side; where
+the forced schedule runs it before the other side's method call the sampled ready is the start-of-cycle one and
+the run is validated against Fifo.tla(normal), otherwise against the advertised kind -- both outcomes the
+constraints admit are admitted, no message may be lost in either.  RecvCL2GiveFL.recv is left out of the split
+designs (its rdy sampling is unordered against give() and Adapter.tla has no start-of-cycle variant of it).
+Adapters: Adapter.tla states the kind of each adapter as its code and
 comments give it (bypass order for RecvCL2SendRTL, SendQueueAdapter, GetRTL2GiveCL, RecvRTL2GiveFL,
 RecvFL2Send*; pipe order for RecvQueueAdapter, RecvCL2GiveFL); the one order the constraints of
 RecvFL2SendRTL leave open (up_clear against the calling block) is read from the schedule and both
@@ -974,6 +989,151 @@ def _trace_canaries(res, ok):
 
 
 # ============================================================================================
+# 2b/3b. CL queues under callers that sample rdy() in one block and call the method in a later one
+# ============================================================================================
+
+def _split_cases(cat, caps):
+    """(class, capacity, shape, forced order) for every CL queue class, every way of splitting the callers and
+    EVERY linear extension of pymtl3's own constraints over the caller blocks and the queue's own blocks."""
+    import c17_duts
+    out, table = [], {}
+    for e in cat:
+        if e.iface != "cl":
+            continue
+        for sh in c17_duts.SPLIT_SHAPES:
+            orders = c17_duts.split_orders(e, sh)
+            table["%s/%s" % (e.name, sh)] = len(orders)
+            for c in caps:
+                for o in orders:
+                    out.append((e.name, c, sh, o))
+    return out, table
+
+
+def _split_make(name, cap, shape, order):
+    import c17_duts
+    entry = next(e for e in c17_duts.catalogue() if e.name == name)
+    return c17_duts.SplitCLDut(entry, cap, shape, order)
+
+
+def _split_walk_job(job):
+    name, cap, shape, order = job
+    first = _split_make(name, cap, shape, order)
+    eff = first.effective_kind()
+    box = [first]
+    r = walk(lambda: box.pop() if box else _split_make(name, cap, shape, order), _GRAPH[(eff, cap)], False,
+             "%s/split-%s" % (name, shape), cap)
+    r.update({"eff": eff, "shape": shape, "order": list(order), "sample_order": list(first.sample_order), "base": name})
+    return r
+
+
+def _split_walks(res, cat, caps):
+    cases, table = _split_cases(cat, caps)
+    kinds = {e.name: e.kind for e in cat}
+    with _pool() as ex:
+        results = list(ex.map(_split_walk_job, cases, chunksize=2))
+    seen = {}
+    for r in results:
+        name, cap = r["name"], r["cap"]
+        res.add_evals(r["cycles"])
+        res.count("split_caller_transitions_replayed", r["edges"])
+        res.distinct(("split-walk", name, cap, tuple(r["order"])))
+        seen.setdefault("%s:%s" % (name, "".join(x[0] + x[1] for x in r["sample_order"])), r["eff"])
+        for v in r["violations"]:
+            occ = "empty" if v["len"] == 0 else "full" if v["len"] == cap else "partly-filled"
+            key = "replay:%s:%s:%s" % (name, v["clause"], occ)      # one key per class / split / clause / occupancy class
+            res.violation(key,
+                          "%s (advertised kind %s, capacity %d), callers split as %s, blocks scheduled %s (a legal order of "
+                          "pymtl3's constraints; rdy sampled / method called in the order %s -> Fifo.tla(%s)): holding %d "
+                          "message(s), offer %s -> %s: expected %s, observed %s"
+                          % (r["base"], kinds[r["base"]], cap, r["shape"], r["order"], r["sample_order"], r["eff"], v["len"],
+                             _act_str(v["act"]), v["clause"], _short(v["expected"]), _short(v["observed"])),
+                          _viol_detail(name, cap, v, split={"base": r["base"], "shape": r["shape"], "order": r["order"]}))
+        if not r["violations"] and r["spec_states"] != r["spec_states_total"]:
+            raise MachineryError("%s cap=%d order %s: only %d of %d spec states reached without any mismatch"
+                                 % (name, cap, r["order"], r["spec_states"], r["spec_states_total"]))
+    res.note("split_caller_linear_extensions", table)
+    res.note("split_caller_sample_orders_and_model", seen)
+    return cases
+
+
+def _split_trace_job(job):
+    name, cap, shape, order, idx, length = job
+    dut = _split_make(name, cap, shape, order)
+    t = record(dut, rng("c17/split/%s/%s/%d/%s/%d" % (name, shape, cap, "-".join(order), idx)), length, False,
+               dut.effective_kind(), cap)
+    t.update({"dut": "%s/split-%s" % (name, shape), "idx": idx, "order": list(order), "sample_order": list(dut.sample_order)})
+    return t
+
+
+def _split_traces(res, cases, lmin, lmax, extra_caps):
+    R = rng("c17-split-lengths")
+    jobs = [c + (0, R.randint(lmin, lmax)) for c in cases]
+    jobs += [(n, ec, sh, o, 0, R.randint(lmin, lmax)) for (n, c, sh, o) in cases if c == 1 for ec in extra_caps]
+    with _pool() as ex:
+        traces = list(ex.map(_split_trace_job, jobs, chunksize=4))
+    nev = sum(len(t["ev"]) for t in traces)
+    res.add_evals(nev)
+    payload = [{"kind": t["kind"], "cap": t["cap"], "ev": t["ev"]} for t in traces]
+    runs, verdicts = tlc.validate_traces("FifoTrace", {"traces": payload}, chunk=max(1, min(40, len(payload) // 16 + 1)))
+    for r in runs:
+        res.add_tlc(r)
+    res.add_traces(len(traces))
+    full = 0
+    for t, (err, pos) in zip(traces, verdicts):
+        res.distinct(("split-trace", t["dut"], t["cap"], tuple(t["order"])))
+        cyc = [e for e in t["ev"] if e["k"] == "cycle"]
+        full += sum(1 for e in cyc if e["c2"] == t["cap"])
+        if err == "ok":
+            if not (any(e["ex"] for e in cyc) and any(e["dx"] for e in cyc)):
+                raise MachineryError("vacuous split-caller trace for %s cap=%d" % (t["dut"], t["cap"]))
+            continue
+        e = t["ev"][pos - 1]
+        res.violation("trace:%s:%s" % (t["dut"], err),
+                      "%s (capacity %d), blocks scheduled %s (rdy sampled / method called as %s -> Fifo.tla(%s)): %s at "
+                      "cycle %d of a random offer history: %s" % (t["dut"], t["cap"], t["order"], t["sample_order"], t["kind"],
+                                                                   err, pos, e),
+                      {"dut": t["dut"], "cap": t["cap"], "order": t["order"], "clause": err, "event": pos,
+                       "prefix": t["ev"][max(0, pos - 12):pos]})
+    if not full:
+        raise MachineryError("split-caller histories never filled a queue")
+    res.note("split_caller_trace_events", nev)
+
+
+def _split_canaries(res):
+    """The seeded-change shape in software: a normal queue whose ready flags are refreshed AFTER the sampling block
+    ran (the sampled flag is last cycle's) must be rejected by the walk."""
+    class Stale(FaultyDut):
+        def __init__(self, cap):
+            FaultyDut.__init__(self, "normal", cap, None)
+            self.flag = True
+
+        def sig(self):
+            return (int(self.flag),)
+
+        def cycle(self, eo, m, do):
+            q, cap = self.q, self.cap
+            cnt = len(q)
+            er = self.flag                       # sampled before the refresh
+            self.flag = cnt < cap                # up_pulse
+            dr = cnt > 0
+            ex, dx = bool(eo and er), bool(do and dr)
+            dm = q[0] if q else None
+            if dx:
+                q.pop(0)
+            if ex:
+                q.append(m)
+                del q[:-cap]                     # deque(maxlen): the oldest entry falls out
+            return {"enq_rdy": er, "deq_rdy": dr, "enq_xfer": ex, "deq_xfer": dx, "deq_msg": dm, "count": cnt,
+                    "count2": len(q)}
+
+    r = walk(lambda: Stale(2), _GRAPH[("normal", 2)], False, "stale-ready-flag", 2, limit=3)
+    if not any(v["clause"] == "enq_rdy" for v in r["violations"]):
+        raise MachineryError("walk canary: a queue with a stale ready flag was not noticed (%s)"
+                             % [v["clause"] for v in r["violations"]])
+    res.note("split_caller_canary_rejected", sorted({v["clause"] for v in r["violations"]}))
+
+
+# ============================================================================================
 # findings made by reading the code, probed so that the evidence records them
 # ============================================================================================
 
@@ -1072,6 +1232,14 @@ def run(res, tier):
     lap("traces")
     _trace_canaries(res, ok)
     lap("trace_canaries")
+    cases = _split_walks(res, cat, (1, 2, 3))
+    _split_canaries(res)
+    res.assume("split callers: PipeQueueCL / BypassQueueCL constrain only the enq / deq methods; a block that only samples "
+               "rdy() before the other side's method call sees the start-of-cycle occupancy and such a schedule is validated "
+               "against Fifo.tla(normal) (see split_caller_sample_orders_and_model); NormalQueueCL must be normal under "
+               "every legal schedule")
+    _split_traces(res, cases, 150, 300 if quick else 1200, (5,) if quick else (4, 5, 7))
+    lap("split_callers")
     c17_ext.run_regfile(res, quick, lap)
     c17_ext.run_adapters(res, quick, lap)
     res.note("phase_seconds", ph)
